@@ -243,14 +243,31 @@ class Run:
 
     # ------------------------------------------------------------------ Go harness
     def go_build(self, cmdname, race=False, tags="verif"):
-        out = os.path.join(OUT, "bin", cmdname + ("-race" if race else ""))
-        cmd = ["go", "build", "-tags", tags, "-o", out]
+        """Build harness/cmd/<cmdname> against the repository under test (VERIF_REPO, default /repo).
+        For a non-default repository a private go.mod (replace => that tree) is used via -modfile,
+        so concurrent runs against scratch worktrees do not disturb each other."""
+        suffix = ("-race" if race else "")
+        modargs = []
+        if os.path.realpath(REPO) != "/repo":
+            import hashlib
+            h = hashlib.sha1(os.path.realpath(REPO).encode()).hexdigest()[:8]
+            suffix += "-" + h
+            md = os.path.join(OUT, "mod-" + h)
+            os.makedirs(md, exist_ok=True)
+            gm = open(os.path.join(HARNESS, "go.mod")).read().replace("=> /repo", "=> " + os.path.realpath(REPO))
+            with open(os.path.join(md, "go.mod"), "w") as fh:
+                fh.write(gm)
+            shutil.copy(os.path.join(REPO, "go.sum"), os.path.join(md, "go.sum"))
+            modargs = ["-modfile=" + os.path.join(md, "go.mod")]
+        else:
+            gosum = os.path.join(REPO, "go.sum")
+            if os.path.exists(gosum):
+                shutil.copy(gosum, os.path.join(HARNESS, "go.sum"))
+        out = os.path.join(OUT, "bin", cmdname + suffix)
+        cmd = ["go", "build", "-tags", tags] + modargs + ["-o", out]
         if race:
             cmd.append("-race")
         cmd.append("./cmd/" + cmdname)
-        gosum = os.path.join(REPO, "go.sum")
-        if os.path.exists(gosum):
-            shutil.copy(gosum, os.path.join(HARNESS, "go.sum"))
         p = subprocess.run(cmd, cwd=HARNESS, env=goenv(), stdout=subprocess.PIPE,
                            stderr=subprocess.STDOUT, text=True)
         if p.returncode != 0:
@@ -324,10 +341,12 @@ class Run:
     def known(self):
         res = {}
         fixed = {}
-        p = os.path.join(VERIF, "known-findings.txt")
-        if not os.path.exists(p):
-            return res, fixed
-        for line in open(p):
+        import glob
+        lines = []
+        for p in [os.path.join(VERIF, "known-findings.txt")] + sorted(glob.glob(os.path.join(VERIF, "findings", "*.txt"))):
+            if os.path.exists(p):
+                lines += open(p).read().splitlines()
+        for line in lines:
             line = line.strip()
             if not line or line.startswith("#"):
                 continue
